@@ -2,6 +2,8 @@ package c20
 
 import (
 	"fmt"
+	"hash/fnv"
+	"math/rand"
 	"os"
 	"strconv"
 	"testing"
@@ -11,10 +13,26 @@ import (
 // TestC20One replays one real-time case (VERIF_C20_CASE_SEED, VERIF_C20_CASE_KIND) and prints what the nodes received.
 func TestC20One(t *testing.T) {
 	sd, err := strconv.ParseInt(os.Getenv("VERIF_C20_CASE_SEED"), 10, 64)
+	spec := caseSpec{Kind: "DoMulti", seed: sd}
+	if id, e2 := strconv.Atoi(os.Getenv("VERIF_C20_CASE_ID")); e2 == nil {
+		// the id-th case of TestC20's list at VERIF_SEED (same derivation as mon.Run.Rand("cases"))
+		vs, _ := strconv.ParseInt(os.Getenv("VERIF_SEED"), 10, 64)
+		h := fnv.New64a()
+		h.Write([]byte("C20"))
+		h.Write([]byte{0})
+		h.Write([]byte("cases"))
+		rng := rand.New(rand.NewSource(int64(h.Sum64()) ^ (vs * 0x1E3779B97F4A7C15)))
+		for i := 0; i <= id; i++ {
+			spec = caseSpec{ID: i, Kind: "DoMulti", seed: rng.Int63()}
+			if rng.Intn(10) < 3 {
+				spec.Kind = "DoMultiCache"
+			}
+		}
+		err = nil
+	}
 	if err != nil {
 		t.Skip("debugging aid")
 	}
-	spec := caseSpec{Kind: "DoMulti", seed: sd}
 	if k := os.Getenv("VERIF_C20_CASE_KIND"); k != "" {
 		spec.Kind = k
 	}
@@ -34,7 +52,8 @@ func TestC20One(t *testing.T) {
 	})
 	fmt.Printf("returned=%v spec=%+v\n", ok, spec)
 	for i, it := range items {
-		fmt.Printf("  %d %s %s key=%s slot=%d write=%v\n", i, it.Note, it.UID, it.Key, it.Slot, it.Write)
+		v, e, _ := resultString(it.Result)
+		fmt.Printf("  %d %s %s key=%s slot=%d write=%v -> %s\n", i, it.Note, it.UID, it.Key, it.Slot, it.Write, trunc(v+e, 70))
 	}
 	n := 0
 	for _, e := range w.srv.Log() {
